@@ -173,5 +173,14 @@ claim("C19",
       "Trusted: rustc MIR. Not decided: that the final cursor equals the line length for every line.",
       ST + "scoped construct inventory + value provenance of span bounds", "DESIGN.md §3 C19")
 
-na("C05", "argument-list equality with bash over words x IFS x directory trees is a runtime quantity; no structural clause that is a "
-          "necessary condition and stable under behaviour-preserving rewrites was found beyond those decided under C04 (DESIGN.md §3 C05)")
+claim("C05",
+      "Decides only the clauses of the property that are visible in the shape of the code: the stage order of full word expansion "
+      "(basic expansion dominates field splitting dominates pathname expansion, each fed with the previous stage's value; inside basic "
+      "expansion brace ≺ parse ≺ per-piece expansion ≺ coalescing), that the glob stage is bypassed only on the two glob-disabling option "
+      "edges, that field splitting has the pipeline as its only caller, and that no stage glues several generated words into one string "
+      "that is parsed as a single word again (reported today for brace expansion: known finding, `IFS=$'\\n'; set -- {a,b}; echo $#` "
+      "prints 1). Necessary conditions for 'expansions happen in the same order, fields split at the same places'.",
+      "Trusted: rustc MIR; bash's documented stage order. Known finding: brace-expansion words are joined with a blank and re-parsed "
+      "(the repair makes a known_failure case of the suite pass, so the unedited suite rejects it). Not decided: the argument lists "
+      "themselves over words x IFS x directory trees, tilde/parameter/command/arithmetic results, glob matching (C08), quoting tags (C04).",
+      ST + "stage-order dominance + value flow on MIR, who-may-call, forward taint from the brace-word vector to word parsers", "DESIGN.md §3 C05")
